@@ -65,38 +65,86 @@ theorem C14_dispatch_exact (ops : List Op) (bus : BusId) (pgn : Nat) :
   · rw [hd, ← hv]; rfl
   · intro i; rw [hm i, hv]
 
-/-- END TO END over histories of client operations and RECEIVED FRAMES, on any number of bus objects, any receive
-configuration `c` and any initial content `rx0` of the receive slots.  `nodeRun` = per frame the receive path of C02
-(`N2k.Rx.rx`: `SetN2kCANBufMsg` for single frames, fast packets of any number of interleaved senders, TP.CM/TP.DT frames)
-followed by `RunMessageHandlers` for the message it completes.  For EVERY history: no fault, and event by event
-(`CallsAgree`): an event that completes no message (client operation, fast-packet fragment, damaged or orphan frame, TP.CM,
-TP.DT, frame refused by the known-message gate) causes NO call of the callback or of any handler; an event that completes
-message `m` on bus `b` causes exactly one call, with exactly `m`, the plain callback once iff set, and `HandleMsg` of a
-duplicate-free list of handlers that is exactly the set the history specification says is attached to `b` and registered
-for PGN 0 or `m.pgn` at that moment, the all-PGN handlers first.  Whether the library consumes `m` itself (ISO request,
-address claim, group function) plays no role.
+/-- END TO END over histories of client operations, configuration calls, FRAME ARRIVALS in the CAN driver and
+`ParseMessages` polls, on any number of bus objects, any PGN-list configuration `c` and any initial receive side `r0`
+(slots, mode bits, frames already waiting).  `nodeRun`: a poll reads the (at most 20) oldest waiting frames, runs the
+receive path of C02 (`N2k.Rx.rx`: `SetN2kCANBufMsg` for single frames, fast packets of any number of interleaved senders,
+TP.CM frames) on each and `RunMessageHandlers` for every message completed.  For EVERY history: no fault, and event by
+event (`CallsAgree`): the calls made during an event are, in order, exactly one per message the receive side completes
+in that event — none for an operation, a configuration call, an arrival, or a poll whose frames complete nothing
+(fast-packet fragments, damaged or orphan frames, TP.CM, TP.DT, frames refused by the known-message gate) — each with
+exactly that message, the plain callback once iff set, and `HandleMsg` of a duplicate-free list of handlers that is exactly
+the set the history specification says is attached to that bus and registered for PGN 0 or the message's PGN at that
+moment, the all-PGN handlers first.  Whether the library consumes the message itself (ISO request, address claim, group
+function) plays no role.
 PARTIAL in exactly one respect: the reassembly of a transport-protocol payload from TP.DT packets is the receiver of C10
-(`N2k.TP`, a different state space, not composed here); its completion is the INPUT event `Ev.tpDone b m`, for which the
-same exactness is proved.  Everything else (which frames complete which message) is computed by the C02 model. -/
-theorem C14_what_is_dispatched_partial (c : BusId → Rx.Cfg) (rx0 : BusId → Rx.St) (evs : List Ev) :
-    ∃ n calls, nodeRun c ⟨World.init, rx0⟩ evs = some (n, calls) ∧
-      CallsAgree calls (expected c SpecSt.init rx0 evs) := by
-  obtain ⟨n, calls, hr, _, hc⟩ := nodeRun_ok c evs ⟨World.init, rx0⟩ inv_init
+(`N2k.TP`, a different state space, not composed here); its verdict is the INPUT annotation of a TP.DT frame ("last
+in-sequence packet of a transfer carrying `m`"), honoured iff the session's slot is open in the C02 model (which decides
+the announce gates: length ≤ 223, known-message mode).  Everything else is computed by the models. -/
+theorem C14_what_is_dispatched_partial (c : BusId → Rx.Cfg) (r0 : RxSide) (evs : List Ev) :
+    ∃ n calls, nodeRun c ⟨World.init, r0⟩ evs = some (n, calls) ∧
+      CallsAgree calls (expected c SpecSt.init r0 evs) := by
+  obtain ⟨n, calls, hr, _, hc⟩ := nodeRun_ok c evs ⟨World.init, r0⟩ inv_init
   exact ⟨n, calls, hr, hc⟩
 
-/-- A transport-protocol control (60416) or data (60160) frame itself is never passed to the callback or to a handler,
-in any state of the node. -/
-theorem C14_transport_frames_not_dispatched (c : BusId → Rx.Cfg) (n : Node) (b : BusId) (now : Nat) (f : Rx.Frame)
-    (h : f.pgn = 60416 ∨ f.pgn = 60160) :
-    ∃ n', nodeStep c n (.frame b now f) = some (n', none) := by
-  have hh : Rx.handled (c b) f = false := by
+/-- A transport-protocol control (60416) or data (60160) frame itself is never passed on, in any state: a TP.CM frame
+completes nothing, a TP.DT frame completes nothing or the transported message named by the TP receiver. -/
+theorem C14_transport_frames_not_dispatched (cfg : Rx.Cfg) (st : Rx.St) (now : Nat) (q : QFrame)
+    (h : q.1.pgn = 60416 ∨ q.1.pgn = 60160) :
+    (rxFrame cfg st now q).2 = none ∨ (q.1.pgn = 60160 ∧ (rxFrame cfg st now q).2 = q.2) := by
+  have hh : Rx.handled cfg q.1 = false := by
     rcases h with h | h <;> simp [Rx.handled, Rx.isTP, h]
-  have h2 : (Rx.rx (c b) (n.rx b) now f).2 = none := by
+  have h2 : (Rx.rx cfg st now q.1).2 = none := by
     unfold Rx.rx; rw [hh]; simp only [Bool.false_eq_true, if_false]; split <;> rfl
-  refine ⟨⟨n.w, (rxTrack c n.rx (.frame b now f)).1⟩, ?_⟩
-  simp [nodeStep, rxTrack, h2]
+  unfold rxFrame
+  by_cases hd : q.1.pgn = 60160
+  · rw [if_pos hd]
+    cases hq : q.2 with
+    | none => exact Or.inl h2
+    | some m =>
+      cases hs : tpSession st m with
+      | none => left; simp only [hs]
+      | some i => right; exact ⟨hd, by simp only [hs]⟩
+  · rw [if_neg hd]; exact Or.inl h2
 
-example : ∃ f : Rx.Frame, f.pgn = 60416 ∨ f.pgn = 60160 := ⟨⟨7, 60416, 1, 255, 8, [32, 9, 0, 2, 255, 5, 248, 1]⟩, Or.inl rfl⟩
+example : ∃ q : QFrame, q.1.pgn = 60416 ∨ q.1.pgn = 60160 := ⟨(⟨7, 60416, 1, 255, 8, [32, 9, 0, 2, 255, 5, 248, 1]⟩, none), Or.inl rfl⟩
+
+/-- `ParseMessages` never takes a frame out of the driver without handing it to the receive path: a poll handles the (at
+most) 20 oldest waiting frames of its bus in order, leaves the rest waiting in order, and does not touch the other buses.
+So every frame of a burst of any length is handled exactly once, by this or a later poll. -/
+theorem C14_poll_loses_no_frame (c : BusId → Rx.Cfg) (r : RxSide) (b : BusId) (now : Nat) :
+    r.drv b = (r.drv b).take 20 ++ (rxTrack c r (.poll b now)).1.drv b ∧
+    (rxTrack c r (.poll b now)).2 =
+      (rxBatch (effCfg c r.mode b) now (r.st b) ((r.drv b).take 20)).2.map (fun m => (b, m)) ∧
+    ∀ b', b' ≠ b → (rxTrack c r (.poll b now)).1.drv b' = r.drv b' := by
+  refine ⟨?_, rfl, ?_⟩
+  · simp [rxTrack, upd, maxRead]
+  · intro b' hb; simp [rxTrack, upd, hb]
+
+/-- handling a batch of frames is handling them one after the other: splitting a burst over polls changes nothing but
+the time stamps -/
+theorem C14_batches_compose (cfg : Rx.Cfg) (now : Nat) : ∀ (l1 l2 : List QFrame) (st : Rx.St),
+    rxBatch cfg now st (l1 ++ l2) =
+      ((rxBatch cfg now (rxBatch cfg now st l1).1 l2).1, (rxBatch cfg now st l1).2 ++ (rxBatch cfg now (rxBatch cfg now st l1).1 l2).2)
+  | [], l2, st => by simp [rxBatch]
+  | q :: l1, l2, st => by
+    simp only [List.cons_append, rxBatch]
+    rw [C14_batches_compose cfg now l1 l2]
+    simp [List.append_assoc]
+
+/-- The message-forwarding options (`SetForwardSystemMessages`, `SetForwardOnlyKnownMessages`, `SetForwardOwnMessages`:
+mode bits 1, 2, 3 — any bit but 4) have no influence on which messages are handled. -/
+theorem C14_forward_options_no_influence (c : BusId → Rx.Cfg) (r : RxSide) (b : BusId) (bit : Nat) (v : Bool)
+    (h : bit ≠ 4) (b' : BusId) :
+    effCfg c (rxTrack c r (.setMode b bit v)).1.mode b' = effCfg c r.mode b' ∧
+    (rxTrack c r (.setMode b bit v)).1.st = r.st ∧ (rxTrack c r (.setMode b bit v)).1.drv = r.drv := by
+  refine ⟨?_, rfl, rfl⟩
+  simp only [effCfg, rxTrack, upd]
+  by_cases hb : b' = b
+  · subst hb; simp [Ne.symm h]
+  · simp [hb]
+
+example : (1 : Nat) ≠ 4 ∧ (2 : Nat) ≠ 4 ∧ (3 : Nat) ≠ 4 := by decide
 
 /-! Non-vacuity: the theorems have no hypotheses; the examples show the model doing what the statements talk about. -/
 
@@ -115,21 +163,25 @@ example : ¬ (specRun SpecSt.init demoOps).matching 0 5 1 := by
   have : (specRun SpecSt.init demoOps).h 1 = some (5, some 1) := by decide
   rw [this] at h; cases h
 
-/-- two fast-packet senders (sources 1 and 2, PGN 129029, 10 bytes = 2 frames each) interleaved frame by frame on bus 0;
-handler 0 (all PGNs) and handler 1 (PGN 129029) are attached to bus 0, handler 2 (PGN 130306) too, handler 3 (all PGNs)
-to bus 1.  The two first frames and the lone TP.DT frame cause no call; each last frame causes one call with the
-reassembled message of its sender to handlers 0 and 1. -/
+/-- two fast-packet senders (sources 1 and 2, PGN 129029, 10 bytes = 2 frames each) interleaved frame by frame on bus 0
+with a lone TP.DT frame in between; handler 0 (all PGNs) and handler 1 (PGN 129029) are attached to bus 0, handler 2
+(PGN 130306) too, handler 3 (all PGNs) to bus 1; a forwarding option is switched on.  Arrivals cause no call; the poll
+causes two calls, the reassembled message of each sender to handlers 0 and 1. -/
 def demoEvs : List Ev :=
   [.op (.new 1 129029 (some 0)), .op (.new 0 0 (some 0)), .op (.new 2 130306 (some 0)), .op (.new 3 0 (some 1)),
-   .frame 0 1000 ⟨6, 129029, 1, 255, 8, [0, 10, 1, 2, 3, 4, 5, 6]⟩,
-   .frame 0 1001 ⟨6, 129029, 2, 255, 8, [64, 10, 21, 22, 23, 24, 25, 26]⟩,
-   .frame 0 1002 ⟨7, 60160, 9, 255, 8, [1, 1, 2, 3, 4, 5, 6, 7]⟩,
-   .frame 0 1003 ⟨6, 129029, 1, 255, 8, [1, 7, 8, 9, 10, 255, 255, 255]⟩,
-   .frame 0 1004 ⟨6, 129029, 2, 255, 8, [65, 27, 28, 29, 30, 255, 255, 255]⟩]
+   .setMode 0 2 true,
+   .arrive 0 ⟨6, 129029, 1, 255, 8, [0, 10, 1, 2, 3, 4, 5, 6]⟩ none,
+   .arrive 0 ⟨6, 129029, 2, 255, 8, [64, 10, 21, 22, 23, 24, 25, 26]⟩ none,
+   .arrive 0 ⟨7, 60160, 9, 255, 8, [1, 1, 2, 3, 4, 5, 6, 7]⟩ none,
+   .arrive 0 ⟨6, 129029, 1, 255, 8, [1, 7, 8, 9, 10, 255, 255, 255]⟩ none,
+   .arrive 0 ⟨6, 129029, 2, 255, 8, [65, 27, 28, 29, 30, 255, 255, 255]⟩ none,
+   .poll 1 1000, .poll 0 1001]
 
-example : (nodeRun (fun _ => {}) ⟨World.init, fun _ => Rx.init 5⟩ demoEvs).map (·.2) =
-    some [none, none, none, none, none, none, none,
-      some ⟨0, ⟨6, 129029, 1, 255, 10, [1, 2, 3, 4, 5, 6, 7, 8, 9, 10]⟩, 0, [0, 1]⟩,
-      some ⟨0, ⟨6, 129029, 2, 255, 10, [21, 22, 23, 24, 25, 26, 27, 28, 29, 30]⟩, 0, [0, 1]⟩] := by decide +kernel
+def demoRx : RxSide := ⟨fun _ _ => false, fun _ => Rx.init 5, fun _ => []⟩
+
+example : (nodeRun (fun _ => {}) ⟨World.init, demoRx⟩ demoEvs).map (·.2) =
+    some [[], [], [], [], [], [], [], [], [], [], [],
+      [⟨0, ⟨6, 129029, 1, 255, 10, [1, 2, 3, 4, 5, 6, 7, 8, 9, 10]⟩, 0, [0, 1]⟩,
+       ⟨0, ⟨6, 129029, 2, 255, 10, [21, 22, 23, 24, 25, 26, 27, 28, 29, 30]⟩, 0, [0, 1]⟩]] := by decide +kernel
 
 end N2k.C14
